@@ -15,10 +15,67 @@ theorem shiftEvents_misalign (k : Int) (ty : MatchEventSubtype) (hty : isPosEven
   obtain ⟨i, _, rfl⟩ := List.mem_map.mp he
   exact hty
 
-theorem detectBeyondPolya_shift (k : Int) (p : Params) (iso : List Iv) (ext int : Int) (evs : List Event)
+theorem countBeyond_le (pos : Int) (l : List Iv) : countBeyond pos l ≤ l.length := by
+  induction l with
+  | nil => exact Nat.le_refl 0
+  | cons e es ih => simp only [countBeyond, List.length_cons]; split <;> omega
+
+theorem countBefore_le (pos : Int) (l : List Iv) : countBefore pos l ≤ l.length := by
+  induction l with
+  | nil => exact Nat.le_refl 0
+  | cons e es ih => simp only [countBefore, List.length_cons]; split <;> omega
+
+theorem tailDist_absent (a : Int) : minInf (distOrInf a (-1)) (distOrInf a (-1)) = none := by
+  simp [minInf, distOrInf]
+
+/-- with both positions absent nothing is ever detected (after fix a2ae069 the distance is infinite), whatever the
+    loop counted -/
+theorem detectBeyondPolya_absent (p : Params) (iso : List Iv) (evs : List Event) :
+    detectBeyondPolya p iso (-1) (-1) evs = some (evs, -1, -1) := by
+  simp only [detectBeyondPolya, tailDist_absent, missedTerminalOk]
+  generalize hc : countBeyond (if (-1 : Int) ≠ -1 then -1 else -1) iso.reverse = c
+  have hle : c ≤ iso.length := by
+    rw [← hc, ← List.length_reverse]; exact countBeyond_le _ _
+  split
+  · rfl
+  · rename_i hne
+    have hlt : c < iso.length := by omega
+    have h1 : ∃ b, pyGet? iso (-(c : Int) - 1) = some b := by
+      unfold pyGet?
+      have n1 : ¬ (0 ≤ -(c : Int) - 1) := by omega
+      have n2 : -(iso.length : Int) ≤ -(c : Int) - 1 := by omega
+      simp only [n1, n2, if_false, if_true]
+      have : ((iso.length : Int) + (-(c : Int) - 1)).toNat < iso.length := by omega
+      exact ⟨_, List.getElem?_eq_getElem this⟩
+    have h2 : ∃ l, iso.getLast? = some l := by
+      cases iso with
+      | nil => simp at hlt
+      | cons a t => exact ⟨(a :: t).getLast (by simp), List.getLast?_eq_some_getLast (by simp)⟩
+    obtain ⟨b, hb⟩ := h1
+    obtain ⟨l, hl⟩ := h2
+    simp [hb, hl]
+
+theorem detectBeforePolyt_absent (p : Params) (iso : List Iv) (evs : List Event) :
+    detectBeforePolyt p iso (-1) (-1) evs = some (evs, -1, -1) := by
+  simp only [detectBeforePolyt, tailDist_absent, missedTerminalOk]
+  generalize hc : countBefore (if (-1 : Int) ≠ -1 then -1 else -1) iso = c
+  have hle : c ≤ iso.length := by rw [← hc]; exact countBefore_le _ _
+  split
+  · rfl
+  · rename_i hne
+    have hlt : c < iso.length := by omega
+    have h1 : ∃ b, iso[c]? = some b := ⟨_, List.getElem?_eq_getElem hlt⟩
+    have h2 : ∃ l, iso.head? = some l := by
+      cases iso with
+      | nil => simp at hlt
+      | cons a t => exact ⟨a, rfl⟩
+    obtain ⟨b, hb⟩ := h1
+    obtain ⟨l, hl⟩ := h2
+    simp [hb, hl]
+
+theorem detectBeyondPolya_shift' (k : Int) (p : Params) (iso : List Iv) (ext int : Int) (evs : List Event)
     (hE : SafePos k ext) (hI : SafePos k int) (hP : ext ≠ -1 ∨ int ≠ -1)
-    (hEnd : ∀ e, iso.getLast? = some e → e.2 ≠ -1)
-    (hD : (ext ≠ -1 ∧ int ≠ -1) ∨ FarOriginA k p iso) :
+    (hEnd : ∀ e, iso.getLast? = some e → e.2 ≠ -1) :
     detectBeyondPolya p (shiftL k iso) (shiftPos k ext) (shiftPos k int) (shiftEvents k evs)
       = (detectBeyondPolya p iso ext int evs).map (outShift k) := by
   have hpos : (if shiftPos k int ≠ -1 then shiftPos k int else shiftPos k ext)
@@ -43,31 +100,15 @@ theorem detectBeyondPolya_shift (k : Int) (p : Params) (iso : List Iv) (ext int 
       | none => rfl
       | some lastE =>
         simp only [Option.map_some, shiftIv_snd]
-        have hbm : b ∈ iso := by
-          unfold pyGet? at hb
-          split at hb
-          · exact List.mem_of_getElem? hb
-          · split at hb
-            · exact List.mem_of_getElem? hb
-            · cases hb
-        have hD' : (ext ≠ -1 ∧ int ≠ -1) ∨
-            (max p.max_fake_terminal_exon_len (p.max_missed_exon_len + p.delta) < iabs (b.2 + 1) ∧
-             max p.max_fake_terminal_exon_len (p.max_missed_exon_len + p.delta) < iabs (b.2 + 1 + k)) := by
-          rcases hD with h | h
-          · exact Or.inl h
-          · exact Or.inr (h b hbm)
-        -- since the fix of the sentinel distance (absent position = infinitely far) the decision is shift invariant
-        -- without `hD'` (kept in the statement for the callers)
-        simp only [distOrInf_shift k _ _ hE, distOrInf_shift k _ _ hI]
+        simp only [tailDist_shift k b.2 ext int hE hI]
         split
         · simp only [Option.map_some, outShift, shiftEvents_append,
             shiftEvents_misalign k .terminal_exon_misalignment_right rfl, shiftPos_of_ne k lastE.2 (hEnd lastE hl)]
         · rfl
 
-theorem detectBeforePolyt_shift (k : Int) (p : Params) (iso : List Iv) (ext int : Int) (evs : List Event)
+theorem detectBeforePolyt_shift' (k : Int) (p : Params) (iso : List Iv) (ext int : Int) (evs : List Event)
     (hE : SafePos k ext) (hI : SafePos k int) (hP : ext ≠ -1 ∨ int ≠ -1)
-    (hEnd : ∀ e, iso.head? = some e → e.1 ≠ -1)
-    (hD : (ext ≠ -1 ∧ int ≠ -1) ∨ FarOriginT k p iso) :
+    (hEnd : ∀ e, iso.head? = some e → e.1 ≠ -1) :
     detectBeforePolyt p (shiftL k iso) (shiftPos k ext) (shiftPos k int) (shiftEvents k evs)
       = (detectBeforePolyt p iso ext int evs).map (outShift k) := by
   have hpos : (if shiftPos k int ≠ -1 then shiftPos k int else shiftPos k ext)
@@ -92,20 +133,34 @@ theorem detectBeforePolyt_shift (k : Int) (p : Params) (iso : List Iv) (ext int 
       | none => rfl
       | some firstE =>
         simp only [Option.map_some, shiftIv_fst]
-        have hbm : b ∈ iso := List.mem_of_getElem? hb
-        have hD' : (ext ≠ -1 ∧ int ≠ -1) ∨
-            (max p.max_fake_terminal_exon_len (p.max_missed_exon_len + p.delta) < iabs (b.1 + 1) ∧
-             max p.max_fake_terminal_exon_len (p.max_missed_exon_len + p.delta) < iabs (b.1 + 1 + k)) := by
-          rcases hD with h | h
-          · exact Or.inl h
-          · exact Or.inr (h b hbm)
-        -- since the fix of the sentinel distance (absent position = infinitely far) the decision is shift invariant
-        -- without `hD'` (kept in the statement for the callers)
-        simp only [distOrInf_shift k _ _ hE, distOrInf_shift k _ _ hI]
+        simp only [tailDist_shift k b.1 ext int hE hI]
         split
         · simp only [Option.map_some, outShift, shiftEvents_append,
             shiftEvents_misalign k .terminal_exon_misalignment_left rfl, shiftPos_of_ne k firstE.1 (hEnd firstE hl)]
         · rfl
+
+/-- full strength: no presence hypothesis (both absent: nothing is detected at either place) -/
+theorem detectBeyondPolya_shift (k : Int) (p : Params) (iso : List Iv) (ext int : Int) (evs : List Event)
+    (hE : SafePos k ext) (hI : SafePos k int) (hEnd : ∀ e, iso.getLast? = some e → e.2 ≠ -1) :
+    detectBeyondPolya p (shiftL k iso) (shiftPos k ext) (shiftPos k int) (shiftEvents k evs)
+      = (detectBeyondPolya p iso ext int evs).map (outShift k) := by
+  by_cases hP : ext ≠ -1 ∨ int ≠ -1
+  · exact detectBeyondPolya_shift' k p iso ext int evs hE hI hP hEnd
+  · have h1 : ext = -1 := by omega
+    have h2 : int = -1 := by omega
+    subst h1; subst h2
+    simp only [shiftPos_neg_one, detectBeyondPolya_absent, Option.map_some, outShift]
+
+theorem detectBeforePolyt_shift (k : Int) (p : Params) (iso : List Iv) (ext int : Int) (evs : List Event)
+    (hE : SafePos k ext) (hI : SafePos k int) (hEnd : ∀ e, iso.head? = some e → e.1 ≠ -1) :
+    detectBeforePolyt p (shiftL k iso) (shiftPos k ext) (shiftPos k int) (shiftEvents k evs)
+      = (detectBeforePolyt p iso ext int evs).map (outShift k) := by
+  by_cases hP : ext ≠ -1 ∨ int ≠ -1
+  · exact detectBeforePolyt_shift' k p iso ext int evs hE hI hP hEnd
+  · have h1 : ext = -1 := by omega
+    have h2 : int = -1 := by omega
+    subst h1; subst h2
+    simp only [shiftPos_neg_one, detectBeforePolyt_absent, Option.map_some, outShift]
 
 /-- the positions returned by `detect_reference_exons_beyond_polya` are its inputs or the isoform end -/
 theorem detectBeyondPolya_out (p : Params) (iso : List Iv) (ext int : Int) (evs : List Event) (r : List Event × Int × Int)
@@ -238,8 +293,7 @@ theorem verifyPolyt_eq (p : Params) (iso read : List Iv) (pa : PolyA) (evs0 : Li
 theorem verifyPolya_shift (k : Int) (p : Params) (iso read : List Iv) (pa : PolyA) (evs0 : List Event)
     (hE : SafePos k pa.extA) (hI : SafePos k pa.intA) (hP : pa.extA ≠ -1 ∨ pa.intA ≠ -1)
     (hEnd : ∀ e, iso.getLast? = some e → e.2 ≠ -1 ∧ e.2 + k ≠ -1)
-    (hME : MovedSafeA k read pa.extA) (hMI : MovedSafeA k read pa.intA)
-    (hD : (pa.extA ≠ -1 ∧ pa.intA ≠ -1) ∨ FarOriginA k p iso) :
+    (hME : MovedSafeA k read pa.extA) (hMI : MovedSafeA k read pa.intA) :
     verifyPolya p (shiftL k iso) (shiftL k read) (shiftPolyA k pa) (shiftEvents k evs0)
       = (verifyPolya p iso read pa evs0).map (shiftEvents k) := by
   rw [verifyPolya_eq, verifyPolya_eq]
@@ -280,11 +334,7 @@ theorem verifyPolya_shift (k : Int) (p : Params) (iso read : List Iv) (pa : Poly
                 rcases hP with h | h
                 · exact Or.inl (fun c => h (ox.2.mp c))
                 · exact Or.inr (fun c => h (oi.2.mp c))
-              have hD' : (ext1 ≠ -1 ∧ int1 ≠ -1) ∨ FarOriginA k p iso := by
-                rcases hD with h | h
-                · exact Or.inl ⟨fun c => h.1 (ox.2.mp c), fun c => h.2 (oi.2.mp c)⟩
-                · exact Or.inr h
-              rw [detectBeyondPolya_shift k p iso ext1 int1 _ ox.1 oi.1 hP' (fun e he => (hEnd e he).1) hD']
+              rw [detectBeyondPolya_shift k p iso ext1 int1 _ ox.1 oi.1 (fun e he => (hEnd e he).1)]
               cases hdet : detectBeyondPolya p iso ext1 int1
                   (eraseLastOf evs0 .major_exon_elongation_right .exon_elongation_right) with
               | none => rfl
@@ -305,8 +355,7 @@ theorem verifyPolya_shift (k : Int) (p : Params) (iso read : List Iv) (pa : Poly
 theorem verifyPolyt_shift (k : Int) (p : Params) (iso read : List Iv) (pa : PolyA) (evs0 : List Event)
     (hE : SafePos k pa.extT) (hI : SafePos k pa.intT) (hP : pa.extT ≠ -1 ∨ pa.intT ≠ -1)
     (hEnd : ∀ e, iso.head? = some e → e.1 ≠ -1 ∧ e.1 + k ≠ -1)
-    (hME : MovedSafeT k read pa.extT) (hMI : MovedSafeT k read pa.intT)
-    (hD : (pa.extT ≠ -1 ∧ pa.intT ≠ -1) ∨ FarOriginT k p iso) :
+    (hME : MovedSafeT k read pa.extT) (hMI : MovedSafeT k read pa.intT) :
     verifyPolyt p (shiftL k iso) (shiftL k read) (shiftPolyA k pa) (shiftEvents k evs0)
       = (verifyPolyt p iso read pa evs0).map (shiftEvents k) := by
   rw [verifyPolyt_eq, verifyPolyt_eq]
@@ -347,11 +396,7 @@ theorem verifyPolyt_shift (k : Int) (p : Params) (iso read : List Iv) (pa : Poly
                 rcases hP with h | h
                 · exact Or.inl (fun c => h (ox.2.mp c))
                 · exact Or.inr (fun c => h (oi.2.mp c))
-              have hD' : (ext1 ≠ -1 ∧ int1 ≠ -1) ∨ FarOriginT k p iso := by
-                rcases hD with h | h
-                · exact Or.inl ⟨fun c => h.1 (ox.2.mp c), fun c => h.2 (oi.2.mp c)⟩
-                · exact Or.inr h
-              rw [detectBeforePolyt_shift k p iso ext1 int1 _ ox.1 oi.1 hP' (fun e he => (hEnd e he).1) hD']
+              rw [detectBeforePolyt_shift k p iso ext1 int1 _ ox.1 oi.1 (fun e he => (hEnd e he).1)]
               cases hdet : detectBeforePolyt p iso ext1 int1
                   (eraseLastOf evs0 .major_exon_elongation_left .exon_elongation_left) with
               | none => rfl
@@ -386,28 +431,26 @@ theorem checkInternal_shift (k pos : Int) (evs : List Event) (incomplete interna
       simp only [Option.map_some, shiftEvent_isoRegion, shiftEvents_append, shiftEvents_cons, shiftEvents_nil,
         shiftEvent_pos k internal hty, shiftPos_of_ne k pos c]
 
-/-- everything `verify_polya` compares with the sentinel −1 (or subtracts from it) for one isoform and one read -/
-structure PolyaSafe (k : Int) (p : Params) (iso read : List Iv) (ext int : Int) : Prop where
+/-- everything `verify_polya` compares with the sentinel −1 for one isoform and one read -/
+structure PolyaSafe (k : Int) (iso read : List Iv) (ext int : Int) : Prop where
   safeExt : SafePos k ext
   safeInt : SafePos k int
   isoEnd : ∀ e, iso.getLast? = some e → e.2 ≠ -1 ∧ e.2 + k ≠ -1
   movedExt : MovedSafeA k read ext
   movedInt : MovedSafeA k read int
-  far : (ext = -1 ↔ int = -1) ∨ FarOriginA k p iso
 
-structure PolytSafe (k : Int) (p : Params) (iso read : List Iv) (ext int : Int) : Prop where
+structure PolytSafe (k : Int) (iso read : List Iv) (ext int : Int) : Prop where
   safeExt : SafePos k ext
   safeInt : SafePos k int
   isoStart : ∀ e, iso.head? = some e → e.1 ≠ -1 ∧ e.1 + k ≠ -1
   movedExt : MovedSafeT k read ext
   movedInt : MovedSafeT k read int
-  far : (ext = -1 ↔ int = -1) ∨ FarOriginT k p iso
 
 /-- the sentinel hypotheses of `verify_read_ends` for one isoform: those of the strand's verifier -/
-def EndsSafe (k : Int) (p : Params) (rp : ReadProf) (I : IsoInfo) : Prop :=
+def EndsSafe (k : Int) (rp : ReadProf) (I : IsoInfo) : Prop :=
   match I.strand with
-  | .plus => PolyaSafe k p I.exons rp.blocks rp.polya.extA rp.polya.intA
-  | .minus => PolytSafe k p I.exons rp.blocks rp.polya.extT rp.polya.intT
+  | .plus => PolyaSafe k I.exons rp.blocks rp.polya.extA rp.polya.intA
+  | .minus => PolytSafe k I.exons rp.blocks rp.polya.extT rp.polya.intT
   | .other => True
 
 theorem shiftEvents_none_default (k : Int) (e : List Event) :
@@ -423,7 +466,7 @@ theorem map_none_default_shift (k : Int) (r : Option (List Event)) :
   | some e => simp only [Option.map_some, shiftEvents_none_default]
 
 theorem verifyReadEnds_shift (k : Int) (p : Params) (rp : ReadProf) (I : IsoInfo) (evs : List Event)
-    (h : EndsSafe k p rp I) :
+    (h : EndsSafe k rp I) :
     verifyReadEnds p (shiftReadProf k rp) (shiftIsoInfo k I) (shiftEvents k evs)
       = (verifyReadEnds p rp I evs).map (shiftEvents k) := by
   unfold EndsSafe at h
@@ -446,16 +489,9 @@ theorem verifyReadEnds_shift (k : Int) (p : Params) (rp : ReadProf) (I : IsoInfo
       have hP : rp.polya.extA ≠ -1 ∨ rp.polya.intA ≠ -1 := by
         simp only [Bool.and_eq_true, Bool.or_eq_true, decide_eq_true_eq] at hc
         exact hc.2
-      have hD : (rp.polya.extA ≠ -1 ∧ rp.polya.intA ≠ -1) ∨ FarOriginA k p I.exons := by
-        rcases h.far with hf | hf
-        · left
-          rcases hP with h1 | h1
-          · exact ⟨h1, fun c => h1 (hf.mpr c)⟩
-          · exact ⟨fun c => h1 (hf.mp c), h1⟩
-        · exact Or.inr hf
       exact verifyPolya_shift k p I.exons rp.blocks rp.polya
         (checkInternal rp.polya.intA evs .incomplete_intron_retention_right .internal_polya_right).1
-        h.safeExt h.safeInt hP h.isoEnd h.movedExt h.movedInt hD
+        h.safeExt h.safeInt hP h.isoEnd h.movedExt h.movedInt
     · rfl
   | minus =>
     rw [hst] at h
@@ -470,16 +506,9 @@ theorem verifyReadEnds_shift (k : Int) (p : Params) (rp : ReadProf) (I : IsoInfo
       have hP : rp.polya.extT ≠ -1 ∨ rp.polya.intT ≠ -1 := by
         simp only [Bool.and_eq_true, Bool.or_eq_true, decide_eq_true_eq] at hc
         exact hc.2
-      have hD : (rp.polya.extT ≠ -1 ∧ rp.polya.intT ≠ -1) ∨ FarOriginT k p I.exons := by
-        rcases h.far with hf | hf
-        · left
-          rcases hP with h1 | h1
-          · exact ⟨h1, fun c => h1 (hf.mpr c)⟩
-          · exact ⟨fun c => h1 (hf.mp c), h1⟩
-        · exact Or.inr hf
       exact verifyPolyt_shift k p I.exons rp.blocks rp.polya
         (checkInternal rp.polya.intT evs .incomplete_intron_retention_left .internal_polya_left).1
-        h.safeExt h.safeInt hP h.isoStart h.movedExt h.movedInt hD
+        h.safeExt h.safeInt hP h.isoStart h.movedExt h.movedInt
     · rfl
 
 end IsoVerif.Lemmas.C11.AssignShift
